@@ -72,6 +72,9 @@ func C04(c *core.Ctx) {
 	// 'session context not found'" - every way a session ends releases its SEID (session-end paths shared
 	// with C01 R6; they include the ownership rules)
 	c01EndPaths(c, "R6", false)
+	// "... re-issued only after its previous session has been removed completely": Close() withdraws the rules through
+	// the Sess.Remove<K> methods, which therefore must reach the data plane for every recorded id (C01 R9)
+	shareFrom(c, "C01", "R6", func(o *core.Obligation) bool { return o.Rule == "R9" }, 5, "removal methods that always reach the data plane")
 }
 
 // ordinal numbers the sites on field f within fn in source order (stable key without line numbers).
